@@ -84,6 +84,10 @@ Proof.
   rewrite <- (map_length CChar name) at 1. rewrite firstn_all, read_chars_map. reflexivity.
 Qed.
 
+Theorem simple_symbol_keeps_name : forall (hash : str -> N) name,
+  simple_symbol_name (simple_parse_add_symbol hash name) (hash (symbol_key name)) = Some name.
+Proof. intros hash name. unfold simple_symbol_name, simple_parse_add_symbol. cbn [fst snd]. rewrite N.eqb_refl. reflexivity. Qed.
+
 (* the headers as they were before the fixes (String::len()): witnesses *)
 Lemma simple_byte_length_header_refuted :
   simple_store_chars str_len [233] <> (1, ok_items [233]).
